@@ -94,6 +94,21 @@ fn harvest_one(sd_jwt: &str, fmt: Fmt, h: &mut Harvest, ctxd: &dyn Fn() -> Value
         }
         mine.insert(model::digest_of(d));
     }
+    // salts of ONE credential must not be derived from each other: any two differ in many bits
+    // (two independent 128-bit values are closer than 24 bits with probability < 1e-15)
+    {
+        let n0 = h.salts.len() - parts.disclosures.len().min(h.salts.len());
+        let raw: Vec<u128> = h.salts[n0..].iter().filter_map(|s| model::b64d(s).ok()).filter(|b| b.len() >= 16).map(|b| u128::from_be_bytes(b[..16].try_into().unwrap())).collect();
+        'outer: for i in 0..raw.len() {
+            for k in i + 1..raw.len() {
+                let dist = (raw[i] ^ raw[k]).count_ones();
+                if dist < 24 && raw[i] != raw[k] {
+                    h.problems.push(("salts-related".into(), format!("two salts of one credential differ in only {dist} of 128 bits"), json!({"salt_a": format!("{:032x}", raw[i]), "salt_b": format!("{:032x}", raw[k]), "ctx": ctxd()})));
+                    break 'outer;
+                }
+            }
+        }
+    }
     let emb: HashSet<&String> = embedded.iter().collect();
     for m in &mine {
         if !emb.contains(m) {
@@ -129,6 +144,17 @@ fn claims_for(r: &mut Rng, same: bool, thread: u32, i: u64) -> Value {
     if i == 1 {
         // one credential with several hundred disclosures (pool / batch boundaries at 256, 257)
         v["wide"] = Value::Array((0..300).map(|k| json!(k)).collect());
+    }
+    if i == 3 {
+        // one object with 40 members (decoy count / pool boundaries inside one `_sd` list) and two
+        // equal multi-member subtrees in one credential
+        let mut m = serde_json::Map::new();
+        for k in 0..40 {
+            m.insert(format!("m{k}"), json!(k));
+        }
+        v["forty"] = Value::Object(m);
+        v["billing"] = json!({"street": "Heidestr. 17", "city": "Köln", "zip": "51147"});
+        v["shipping"] = json!({"street": "Heidestr. 17", "city": "Köln", "zip": "51147"});
     }
     if i == 2 {
         // one disclosure whose text is larger than 64 KiB (digest must cover all of it)
@@ -517,6 +543,36 @@ pub fn run(ctx: &Ctx) -> Report {
                 case: 0,
                 detail: json!({"repeats": dups, "example": example, "total": v.len()}),
             });
+        }
+    }
+    // no two salts of the whole run share a long prefix or suffix (sorted neighbours; for n <= 10^8
+    // independent values a common run of 72 bits has probability < 1e-5)
+    {
+        let raw: Vec<u128> = all_salts.iter().filter_map(|s| model::b64d(s).ok()).filter(|b| b.len() >= 16).map(|b| u128::from_be_bytes(b[..16].try_into().unwrap())).collect();
+        for (what, key) in [("prefix", 0u32), ("suffix", 1)] {
+            let mut v: Vec<u128> = raw.iter().map(|x| if key == 0 { *x } else { x.reverse_bits() }).collect();
+            v.sort_unstable();
+            let mut worst = 0u32;
+            let mut ex = (0u128, 0u128);
+            for w in v.windows(2) {
+                if w[0] != w[1] {
+                    let common = (w[0] ^ w[1]).leading_zeros();
+                    if common > worst {
+                        worst = common;
+                        ex = (w[0], w[1]);
+                    }
+                }
+            }
+            l.max(&format!("salts.longest-common-{what}-bits"), worst as u64);
+            if worst >= 72 {
+                l.violate(Violation {
+                    subcheck: "salts-related".into(),
+                    class: "whole-run".into(),
+                    observed: format!("two different salts share a {worst}-bit {what}"),
+                    case: 0,
+                    detail: json!({"a": format!("{:032x}", if key == 0 { ex.0 } else { ex.0.reverse_bits() }), "b": format!("{:032x}", if key == 0 { ex.1 } else { ex.1.reverse_bits() }), "salts": raw.len()}),
+                });
+            }
         }
     }
     // per-bit balance of the first 16 salt bytes
